@@ -239,6 +239,11 @@ func runC14(c C14Case, cs *kit.CaseStats) error {
 		}
 	}
 	salt := uint64(1000)
+	type heldList struct {
+		txns []types.V2Transaction
+		enc  [][]byte
+	}
+	var held []heldList
 
 	for oi, op := range c.Ops {
 		where := fmt.Sprintf("op %d (%s)", oi, op.Op)
@@ -246,6 +251,19 @@ func runC14(c C14Case, cs *kit.CaseStats) error {
 			return fmt.Errorf("before %s: %w", where, lerr)
 		}
 		before := viewPool(node)
+		// listings handed out earlier are the caller's: whatever the pool did
+		// since (revalidation, proof updates after blocks) must not show in them
+		for hi, h := range held {
+			if !sameEnc(h.enc, encV2s(h.txns)) {
+				return fmt.Errorf("before %s: a V2PoolTransactions result obtained %d step(s) earlier changed in the caller's hands", where, len(held)-hi)
+			}
+		}
+		if len(before.v2) > 0 {
+			held = append(held, heldList{before.v2, encV2s(before.v2)})
+			if len(held) > 4 {
+				held = held[1:]
+			}
+		}
 		switch op.Op {
 		case "submit1", "submit2":
 			v2 := op.Op == "submit2"
@@ -262,7 +280,9 @@ func runC14(c C14Case, cs *kit.CaseStats) error {
 			known := 0
 			if v2 {
 				known = min(op.Known, len(before.v2))
-				set2 = append(set2, before.v2[:known]...)
+				for _, kt := range before.v2[:known] {
+					set2 = append(set2, kt.DeepCopy())
+				}
 				bb.Absorb(nil, before.v2[:known])
 			} else {
 				known = min(op.Known, len(before.v1))
